@@ -1,6 +1,7 @@
 // Native BOUNDED checks of charset selection and streaming text decoding.  Child module of src/parsing/response_reader.rs.
 use super::get_charset;
 use crate::charsets;
+use encoding_rs::Encoding;
 use crate::parsing::TextReader;
 use http::header::{HeaderMap, HeaderValue, CONTENT_TYPE};
 use std::io::{BufReader, Read};
@@ -33,6 +34,39 @@ fn vp_native_charset_selection() {
         let mut h = HeaderMap::new(); h.insert(CONTENT_TYPE, HeaderValue::from_static("text/plain"));
         assert_eq!(get_charset(&h, d), d.unwrap_or(charsets::WINDOWS_1252)); cases += 1;
     }
+    // every label of the WHATWG Encoding Standard table that encoding_rs may know, in lower, upper and mixed case; the
+    // oracle for "known" is Encoding::for_label on the label itself (independent of get_charset)
+    let all_labels = ["unicode-1-1-utf-8", "unicode11utf8", "unicode20utf8", "utf-8", "utf8", "x-unicode20utf8", "866", "cp866", "csibm866", "ibm866",
+        "csisolatin2", "iso-8859-2", "iso-ir-101", "iso8859-2", "iso88592", "iso_8859-2", "iso_8859-2:1987", "l2", "latin2", "csisolatin3", "iso-8859-3", "iso-ir-109",
+        "iso_8859-3:1988", "l3", "latin3", "csisolatin4", "iso-8859-4", "iso-ir-110", "iso_8859-4:1988", "l4", "latin4", "csisolatincyrillic", "cyrillic", "iso-8859-5",
+        "iso-ir-144", "iso_8859-5:1988", "arabic", "asmo-708", "csiso88596e", "csiso88596i", "csisolatinarabic", "ecma-114", "iso-8859-6", "iso-8859-6-e", "iso-8859-6-i",
+        "iso-ir-127", "iso_8859-6:1987", "csisolatingreek", "ecma-118", "elot_928", "greek", "greek8", "iso-8859-7", "iso-ir-126", "iso_8859-7:1987", "sun_eu_greek",
+        "csiso88598e", "csisolatinhebrew", "hebrew", "iso-8859-8", "iso-8859-8-e", "iso-ir-138", "iso_8859-8:1988", "visual", "csiso88598i", "iso-8859-8-i", "logical",
+        "csisolatin6", "iso-8859-10", "iso-ir-157", "l6", "latin6", "iso-8859-13", "iso-8859-14", "csisolatin9", "iso-8859-15", "iso_8859-15", "l9", "iso-8859-16",
+        "cskoi8r", "koi", "koi8", "koi8-r", "koi8_r", "koi8-ru", "koi8-u", "csmacintosh", "mac", "macintosh", "x-mac-roman", "dos-874", "iso-8859-11", "tis-620", "windows-874",
+        "cp1250", "windows-1250", "x-cp1250", "cp1251", "windows-1251", "x-cp1251", "ansi_x3.4-1968", "ascii", "cp1252", "cp819", "csisolatin1", "ibm819", "iso-8859-1",
+        "iso-ir-100", "iso_8859-1:1987", "l1", "latin1", "us-ascii", "windows-1252", "x-cp1252", "cp1253", "windows-1253", "cp1254", "csisolatin5", "iso-8859-9", "iso-ir-148",
+        "iso_8859-9:1989", "l5", "latin5", "windows-1254", "cp1255", "windows-1255", "cp1256", "windows-1256", "cp1257", "windows-1257", "cp1258", "windows-1258",
+        "x-mac-cyrillic", "x-mac-ukrainian", "chinese", "csgb2312", "csiso58gb231280", "gb2312", "gb_2312", "gb_2312-80", "gbk", "iso-ir-58", "x-gbk", "gb18030",
+        "big5", "big5-hkscs", "cn-big5", "csbig5", "x-x-big5", "cseucpkdfmtjapanese", "euc-jp", "x-euc-jp", "csiso2022jp", "iso-2022-jp", "csshiftjis", "ms932", "ms_kanji",
+        "shift-jis", "shift_jis", "sjis", "windows-31j", "x-sjis", "cseuckr", "csksc56011987", "euc-kr", "iso-ir-149", "korean", "ks_c_5601-1987", "ks_c_5601-1989", "ksc5601",
+        "ksc_5601", "windows-949", "csiso2022kr", "hz-gb-2312", "iso-2022-cn", "iso-2022-cn-ext", "iso-2022-kr", "replacement", "unicodefffe", "utf-16be", "csunicode",
+        "iso-10646-ucs-2", "ucs-2", "unicode", "unicodefeff", "utf-16", "utf-16le", "x-user-defined", "not-a-charset-label-at-all", "utf-9"];
+    let mut known = 0u64;
+    for label in all_labels { for case in 0..3 {
+        let l: String = match case { 0 => label.to_string(), 1 => label.to_ascii_uppercase(),
+            _ => label.chars().enumerate().map(|(i, c)| if i % 2 == 0 { c.to_ascii_uppercase() } else { c }).collect() };
+        let enc = Encoding::for_label(l.as_bytes());
+        if enc.is_some() { known += 1; }
+        for shape in ["text/html; charset={}", "text/html;charset={}"] { for d in defaults {
+            let mut h = HeaderMap::new();
+            h.insert(CONTENT_TYPE, HeaderValue::from_str(&shape.replace("{}", &l)).unwrap());
+            let want = enc.or(d).unwrap_or(charsets::WINDOWS_1252);
+            assert_eq!(get_charset(&h, d), want, "Content-Type {:?} default {:?}", shape.replace("{}", &l), d.map(|c| c.name()));
+            cases += 1;
+        } }
+    } }
+    assert!(known >= 3 * 150, "the label table is expected to be known to encoding_rs ({} hits)", known);
     println!("VP-NATIVE charset_selection cases={}", cases);
 }
 
